@@ -233,7 +233,7 @@ def structure(ctx):
     d = new_doc(second_prefix=False)
     # elements: 2 entities (one labelled), activity, agent; symbolic aliasing of the second entity's identifier
     nn = len(NASTY) if P["tier"] == "thorough" else 4
-    ni = ctx.choose("nasty", nn)
+    ni = ctx.choose("nasty", nn) if P.get("bundle") != 2 else 3  # the blank-node shards do not vary the label text
     lab = NASTY[ni]
     val = NASTY[(ni + 3) % len(NASTY)]
     e2 = "ex:" + ctx.str("e2", 2, 1, "name")
@@ -276,7 +276,7 @@ def structure(ctx):
         show_el = show_rel = show_nary = True   # the direction shard varies direction x use_labels only
     else:
         show_el = ctx.bool("show_el")
-        show_rel = ctx.bool("show_rel") if len(rels) < 3 else show_el  # larger documents: the two flags vary together
+        show_rel = ctx.bool("show_rel") if (len(rels) < 3 and P.get("bundle") != 2) else show_el  # larger documents: the two flags vary together
         show_nary = ctx.bool("show_nary")
     opts = dict(show_nary=show_nary, use_labels=ctx.bool("use_labels"),
                 show_element_attributes=show_el, show_relation_attributes=show_rel,
